@@ -184,6 +184,26 @@ def check_config(ctx, T, cfg, tier, seed):
     r0 = "kw" if "kw" in objs else sorted(objs)[0]
     t0 = objs[r0]
 
+    if cls == "Manly" and abs(p["lam"]) >= 1e-3:
+        # the flat tail of forward (y -> -1/lam): a finite difference cannot resolve the derivative there, but it is
+        # far from underflow (exp(-600) ~ 1e-261): the jacobian must still be positive and equal to the textbook
+        # derivative exp(lam x / xmax) / xmax
+        tt = np.array([-20.0, -26.0, -28.0, -30.0, -33.0, -37.0, -40.0, -100.0, -600.0])
+        xt = tt * p["xmax"] / p["lam"]
+        j, e = call(t0.jacobian, xt.copy())
+        ctx.case(True, n=len(xt), outcome=None if j is None else j.tobytes())
+        ctx.count("manly.tail_points", len(xt))
+        if e is not None or j is None or j.size != len(xt):
+            k = br + ":jacobian:tail:raised"
+            ctx.violation(k, dict(case, key=k), "jacobian raised / returned a wrong size on the flat tail: %r" % (e,))
+        else:
+            j = j.reshape(len(xt))
+            ref = H.ref_jacobian(cls, p, xt)
+            with np.errstate(all="ignore"):
+                bad = ~(np.isfinite(j) & (j > 0) & (np.abs(j - ref) <= FD_TOL * ref))
+            first_bad(ctx, br + ":jacobian:flat-tail", case, bad, xt, None,
+                      lambda i: "jacobian(%r) = %r where lam*x/xmax = %g: the derivative of forward is exp(lam x/xmax)/xmax = %r > 0" % (
+                          float(xt[i]), float(j[i]), float(tt[i]), float(ref[i])))
     xs = H.x_candidates(cfg, tier, seed)
     dom, sc, yref = H.scope_x(cls, p, xs)
     xin, yrin = xs[sc], yref[sc]
